@@ -879,5 +879,6 @@ func run(cx *lib.Ctx) {
 			res.Sample(c.in)
 		}
 	}
+	directedStatic(cx)
 	corrExpand(cx)
 }
